@@ -88,6 +88,7 @@ def parse_log(path, res):
     done = False
     open_idx, open_key, fault = None, None, None
     res.restart_at = None
+    res.crashdump = False
     try:
         f = open(path, "r", errors="replace")
     except OSError:
@@ -116,10 +117,14 @@ def parse_log(path, res):
                     res.samples.append(line[7:])
             elif line.startswith("FAULT "):
                 fault = line
+            elif line.startswith("FRAMES ") and fault:
+                fault = fault + " | " + line
             elif line.startswith("HARNESS "):
                 res.inconclusive.append(line)
             elif line.startswith("RESTART "):
                 res.restart_at = int(line.split()[1])
+            elif line == "CRASHDUMP":
+                res.crashdump = True
             elif line == "DONE":
                 done = True
     return done, open_idx, open_key, fault
@@ -152,7 +157,7 @@ def run_shard(binpath, args, env, workdir, tag, prop, timeout, max_restarts=400,
         res.viols += tmp.viols
         res.inconclusive += tmp.inconclusive
         err = open(errp, "r", errors="replace").read()
-        if not done and not (rc == 77 and tmp.restart_at is not None):
+        if not done and not (rc == 77 and tmp.restart_at is not None) and not tmp.crashdump:
             res.lost_cases.update(hash(k) for k in tmp.case_keys)     # counters of this attempt died with it
         if done and rc == 0:
             res.done = True
@@ -177,6 +182,20 @@ def run_shard(binpath, args, env, workdir, tag, prop, timeout, max_restarts=400,
             attempt += 1
             continue
         kind = classify_stderr(err, rc)
+        if kind.startswith("signal:") and fault:
+            ms = re.search(r"sig=(\d+)", fault)
+            if ms:
+                try:
+                    kind = "signal:" + signal.Signals(int(ms.group(1))).name
+                except ValueError:
+                    pass
+        if kind.startswith("signal:") and fault and "FRAMES" in fault:
+            # plain builds: name the innermost frame that lies in one of the library objects
+            for fr in fault.split("FRAMES", 1)[1].split()[1:]:
+                nm, _, obj = fr.partition("@")
+                if re.match(r"lib(erasurecode|Xorcode|nullcode|isal)", obj):
+                    kind += "@" + (nm if not nm.startswith("+") else obj.split(".")[0] + nm)
+                    break
         if done and rc == 66:
             # ThreadSanitizer's exit code: its reports are collected from the log files below
             res.done = True
